@@ -185,8 +185,11 @@ theorem appPass_good {σ} {cfg : DevCfg σ} (hpos : cfg.tsm.TimeoutsPos) :
       · dsimp only
         refine ih _ ?_
         have h1 := (hg.applyDcc (cfg.serve s.app p a).2.dcc)
-        have h2 := h1.step hpos (.response p (respApdu a (cfg.serve s.app p a).2.answer)) rfl
-        exact h2.congr rfl
+        cases hans : (cfg.serve s.app p a).2.answer with
+        | none => exact h1.congr rfl
+        | some ans =>
+          have h2 := h1.step hpos (.response p (respApdu a ans)) rfl
+          exact h2.congr rfl
       · split
         · dsimp only
           refine ih _ ?_
